@@ -235,6 +235,21 @@ def strip_nodes(tree, pred):
     return tree
 
 
+def merge_component_parts(tree):
+    n_merged = 0
+    for n in all_nodes(tree):
+        if isinstance(n, BlockBase):
+            out = []
+            for c in n.content:
+                if out and type(c).__name__ == "Component_Part" and type(out[-1]).__name__ == "Component_Part":
+                    out[-1].content.extend(c.content)
+                    n_merged += 1
+                else:
+                    out.append(c)
+            n.content[:] = out
+    return n_merged
+
+
 def run_jobs(case):
     """case: id, jobs [ {name, src, std, ic, pd, omp, want, files, reader, dirs} ] -> {name: result}"""
     import os, shutil, tempfile
@@ -254,6 +269,7 @@ def run_jobs(case):
                     dd = os.path.join(tmp, dname)
                     os.makedirs(dd, exist_ok=True)
                     for fn, txt in files.items():
+                        os.makedirs(os.path.dirname(os.path.join(dd, fn)), exist_ok=True)
                         with open(os.path.join(dd, fn), "w") as f:
                             f.write(txt)
                 for dname in job.get("dirs", list(job["files"].keys())):
@@ -292,6 +308,9 @@ def run_jobs(case):
                 if "stripcpp" in want:
                     strip_nodes(t, lambda c: type(c).__name__.startswith("Cpp_"))
                     r["st_nocpp"] = h(fp.struct(t))
+                    # the same with neighbouring Component_Part nodes merged (known finding KF-C14-2 is exactly that split)
+                    nsplit = merge_component_parts(t)
+                    r["st_nocpp_merged"] = h(fp.struct(t)) if nsplit else r["st_nocpp"]
             res["jobs"][job["name"]] = r
         finally:
             if tmp:
